@@ -807,6 +807,50 @@ func c04HiddenFilter(c *Ctx, bi bodyImpl, tname string) int {
 		}
 		return "blocks"
 	}
+	// predicate helpers: a method of the type that returns the found bit of a hidden-set lookup
+	hiddenPred := map[*ssa.Function]string{}
+	for _, h := range c.P.pkgFuncs(bi.pkg) {
+		if h.Parent() != nil || h.Signature.Recv() == nil || namedOf(h.Signature.Recv().Type()) != bi.named || h.Signature.Results().Len() != 1 {
+			continue
+		}
+		if bt, ok := h.Signature.Results().At(0).Type().Underlying().(*types.Basic); !ok || bt.Kind() != types.Bool {
+			continue
+		}
+		kind, okAll := "", true
+		for _, hb := range h.Blocks {
+			r, ok := hb.Instrs[len(hb.Instrs)-1].(*ssa.Return)
+			if !ok {
+				continue
+			}
+			ex, ok := r.Results[0].(*ssa.Extract)
+			if !ok || ex.Index != 1 {
+				okAll = false
+				continue
+			}
+			lk, ok := ex.Tuple.(*ssa.Lookup)
+			if !ok {
+				okAll = false
+				continue
+			}
+			found := false
+			if u, ok := lk.X.(*ssa.UnOp); ok && u.Op == token.MUL {
+				if fa, ok := u.X.(*ssa.FieldAddr); ok {
+					fv := fieldVarOf(fa.X.Type(), fa.Field)
+					for _, hf := range bi.hidden {
+						if fv == hf {
+							kind, found = kindOf(hf), true
+						}
+					}
+				}
+			}
+			if !found {
+				okAll = false
+			}
+		}
+		if okAll && kind != "" {
+			hiddenPred[h] = kind
+		}
+	}
 	n := 0
 	for _, fn := range c.P.pkgFuncs(bi.pkg) {
 		root := fn
@@ -851,6 +895,38 @@ func c04HiddenFilter(c *Ctx, bi bodyImpl, tname string) int {
 			undecided := ""
 			for _, b := range scc {
 				for _, ins := range b.Instrs {
+					if call, ok := ins.(*ssa.Call); ok {
+						if k, isPred := hiddenPred[call.Call.StaticCallee()]; isPred && call.Call.StaticCallee() != nil {
+							lookups[k] = call.Pos()
+							for _, rr := range *call.Referrers() {
+								var iff *ssa.If
+								neg := false
+								switch y := rr.(type) {
+								case *ssa.If:
+									iff = y
+								case *ssa.UnOp:
+									if y.Op == token.NOT {
+										for _, r3 := range *y.Referrers() {
+											if i3, ok := r3.(*ssa.If); ok {
+												iff, neg = i3, true
+											}
+										}
+									}
+								}
+								if iff == nil {
+									continue
+								}
+								side := 1
+								if neg {
+									side = 0
+								}
+								if succ := iff.Block().Succs[side]; len(succ.Preds) == 1 {
+									regions[k] = append(regions[k], succ)
+								}
+							}
+						}
+						continue
+					}
 					lk, ok := ins.(*ssa.Lookup)
 					if !ok || !lk.CommaOk {
 						continue
